@@ -3,12 +3,16 @@ SPEC = {
     "lean_props": ["TunnoxModel.Props.C08"],
     "harness": {
         "pkg": "c08",
-        "shims": {},
+        "shims": {"session": "internal/protocol/session", "adapter": "internal/protocol/adapter"},
         "runs": [{"args": [], "corpus": ""}],
     },
     "skip_model_prefix": ["sched"],
     "rule": ("case = one history of session events on 1-4 nodes sharing one store; every node is a real SessionManager with "
-             "its own connstate.Store, driven through CreateConnection / HandlePacket(Handshake|Heartbeat) / CloseConnection "
+             "its own connstate.Store, driven through CreateConnection / HandlePacket(Handshake|Heartbeat) and, for the end of a "
+             "connection, through EVERY production path: CloseConnection called directly (c:), the adapter's read-loop end "
+             "BaseAdapter.cleanupConnection (e:, shim), the Disconnect command via HandlePacket (d:), the real heartbeat-timeout "
+             "sweep cleanupStaleConnections after the connection was made to look silent (s:, shim), duplicate-login eviction "
+             "KickOldControlConnection (k:), session manager shutdown Close/onClose (x:<node>), and the same-node re-handshake "
              "(fake transport and auth handler); after EVERY event EVERY node is asked FindClientNode for every watched client "
              "and SendCommandToClient's routing decision is recorded (CrossNodePool over a recording storage: no network). "
              "Backends: memory, redis over miniredis (clock = FastForward), hybrid(local memory per node + shared redis), hybrid "
@@ -19,7 +23,12 @@ SPEC = {
              "/ repeated handshakes, stray events on closed or unknown ids, id reuse, lifetimes 1 s / 60 s / default 5 min, ticks "
              "0.3 / 0.45 / 1.3 lifetimes so that the boundary instant is never observed); real-clock lifetimes (300 ms, sleeps 110 / "
              "400 ms, rerun when a sleep overshoots by > 25 ms) on the backends that cannot be fast-forwarded; boundary list; "
-             "keep-alive words (heartbeats of both connections, reconnect, late close, ticks of 0.45 / 0.7 lifetimes, <= 3 / 5 steps). "
+             "split lookups: q:<node>.<client> starts a real FindClientNode on a store handle whose every call waits for a permit "
+             "and lets only its first round trip (index read) run, r:… lets the rest run and takes the answer - any events in "
+             "between (exhaustive words over {q,r on both nodes, same-node / cross-node reconnect, close, sweep, heartbeat, expiry}, "
+             "<= 4 / 5 steps, only words in which a lookup spans an event; random histories; boundary list); "
+             "ending-path words (client registered on node 0; alphabet same-node / cross-node reconnect, c e d s k x, old heartbeat; "
+             "<= 3 / 4 steps, redis and memory); keep-alive words (heartbeats of both connections, reconnect, late close, ticks of 0.45 / 0.7 lifetimes, <= 3 / 5 steps). "
              "sched (holds-only exploration below the event granularity): the last two events (close||handshake, heartbeat||handshake, "
              "handshake||handshake on two nodes) run concurrently, every Get/Set/Delete on the shared store is one step of a gated "
              "store handle, all 2^6 (quick) / 2^8 (thorough) step orders; a schedule whose executed trace has a write of the other "
@@ -30,7 +39,8 @@ SPEC = {
         "extractor /verif/extract: normalized text (Gen.Flow) of connstate NewStore / RegisterConnection / UnregisterConnection / "
         "GetConnectionState / FindClientNode / RefreshConnection / clientIndexPointsTo / make*Key and of CloseConnection; call "
         "skeletons of handleHandshake, handleHeartbeat, CreateConnection, RemoveControlConnection, removeConnectionLocked, "
-        "UpdateAuth, SendCommandToClient, sendCommandCrossNode, SendHTTPProxyRequest, StreamManager.CreateStream, hybrid "
+        "UpdateAuth, cleanupStaleConnections, CleanupStale, handleDisconnectCommand, KickOld(Control)Connection, onClose, "
+        "ClientRegistry.Close, BaseAdapter.handleConnection/cleanupConnection, WebSocketModule.handleConnection, SendCommandToClient, sendCommandCrossNode, SendHTTPProxyRequest, StreamManager.CreateStream, hybrid "
         "Get/setShared/getCacheForKey/getCategory; hybrid DefaultConfig prefix tables (Gen/ConnState.lean)",
         "differential harness /verif/harness/c08 (fake transport, auth handler that accepts token \"ok\", recording storage under "
         "the CrossNodePool, value-shape doubles); compiled Lean driver as model and as holds-oracle",
@@ -49,6 +59,15 @@ SPEC = {
         "deadline, redis: gone)",
         "keep-alive means handshake/heartbeats of the registered connection at most one lifetime apart; a heartbeat later than "
         "that ends the obligation (RefreshConnection does not re-register a lapsed record)",
+        "a connection counts as open until CloseConnection has run for it (the reference's `opened`): duplicate-login eviction and "
+        "shutdown only empty the registry and close streams - the records stay until the read loop's CloseConnection, which the "
+        "skeletons show every path reaches (skel_closing_paths); they end the keep-alive obligation at once. The routing decision "
+        "of a node that was shut down is not observed (its CrossNodePool is closed); a crashed node's records expire by TTL only",
+        "the Disconnect command and the sweep act only on a connection the registry holds; whether the call closed the connection "
+        "is part of the observation (connection table before/after) and drives the reference",
+        "lookups are read-only in the model (lookup_is_read_only; source tie skel_lookup_reads + flow_FindClientNode); the one write "
+        "the code can make inside a lookup - GetConnectionState deleting the record it found past its ExpiresAt - concerns the key of "
+        "that connection id only and is subsumed by the store's own deadline (not modelled)",
         "limits not reached (MaxConnections 10000, MaxControlConnections 5000: the registry evicts the oldest control "
         "connection at the limit), no storage faults, heartbeat-timeout cleanup = a close event",
         "SendCommandToClient prefers the node's own registry: a node that still holds an (unnoticed dead) connection of the "
